@@ -122,6 +122,20 @@ func (c16) RunBatch(ctx *core.Ctx, batch int) {
 			h := gen.RandString(rv)
 			ins = append(ins, h, "a:"+h, h+" b", "x "+h, `"`+h+`"`, "/"+h+"/", h+h)
 		}
+		// two different exotic characters in one input: every opening with every closing
+		// punctuation / quotation mark, around a phrase, a value and nothing
+		for _, pr := range [][2]*unicode.RangeTable{{unicode.Pi, unicode.Pf}, {unicode.Ps, unicode.Pe}, {unicode.Pi, unicode.Pi}, {unicode.Pf, unicode.Pi}} {
+			opens, closes := tableRunes(pr[0]), tableRunes(pr[1])
+			for _, o := range opens {
+				for _, c := range closes {
+					if o < 0x80 || c < 0x80 {
+						continue
+					}
+					ins = append(ins, string(o)+"a b"+string(c), "x:"+string(o)+"a"+string(c), "("+string(o)+string(c)+")")
+					ctx.Count("punctuation_pairs", 1)
+				}
+			}
+		}
 		for _, in := range ins {
 			in := in
 			ctx.Case(in, func() { c16Check(ctx, "dict", in) })
@@ -159,6 +173,21 @@ func (c16) RunBatch(ctx *core.Ctx, batch int) {
 			ctx.Case(in, func() { c16Check(ctx, "fuzz", in) })
 		})
 	}
+}
+
+func tableRunes(t *unicode.RangeTable) []rune {
+	out := []rune{}
+	for _, r16 := range t.R16 {
+		for r := rune(r16.Lo); r <= rune(r16.Hi); r += rune(r16.Stride) {
+			out = append(out, r)
+		}
+	}
+	for _, r32 := range t.R32 {
+		for r := rune(r32.Lo); r <= rune(r32.Hi); r += rune(r32.Stride) {
+			out = append(out, r)
+		}
+	}
+	return out
 }
 
 func isWS(b byte) bool { return b == ' ' || b == '\t' || b == '\r' || b == '\n' }
@@ -234,6 +263,27 @@ func c16Check(ctx *core.Ctx, kind, in string) {
 		if fr, _ := utf8.DecodeRuneInString(t.Val); !canStartToken(fr) {
 			ctx.Violate("c16:token-starts-with-bad-character:"+t.Typ.String(), "input %q: token %v %q at offset %d starts with %q (U+%04X), which cannot start a token; no lexical error was raised", in, t.Typ, t.Val, pos, string(fr), fr)
 			return
+		}
+		// a bare word holds word characters only (letters, digits, '_', wildcards, '.', '-') and
+		// backslash-escaped characters; anything else ends the word and starts the next token
+		if t.Typ == lex.TLiteral {
+			for i := 0; i < len(t.Val); {
+				r, w := utf8.DecodeRuneInString(t.Val[i:])
+				switch {
+				case r == '\\':
+					i += w
+					if i < len(t.Val) {
+						_, w2 := utf8.DecodeRuneInString(t.Val[i:])
+						i += w2
+					}
+					continue
+				case r == '_' || r == '*' || r == '?' || r == '.' || r == '-' || unicode.IsLetter(r) || unicode.IsDigit(r):
+					i += w
+					continue
+				}
+				ctx.Violate("c16:word-token-holds-non-word-character", "input %q: word token %q at offset %d contains %q (U+%04X), which is no word character: the word should have ended there", in, t.Val, pos, string(r), r)
+				return
+			}
 		}
 		// an unterminated quote or regexp is a lexical error, never a token: a quoted token ends at
 		// the first matching quote, a regexp token at the first unescaped slash
@@ -411,7 +461,7 @@ func (c16) Finish(res *core.Result, cov map[string]any) []string {
 	reasons := []string{}
 	cov["distinct_nontrivial"] = res.NDistinct("nontrivial")
 	cov["exhaustive"] = true
-	cov["rule"] = "every byte string of length <= 3 (quick) / <= 4 (thorough) over a 40-byte alphabet (exhaustive), hostile dictionary strings in lexer-relevant positions, every code point of the BMP and a stride sample of the astral planes (thorough: every code point) alone / after a word / inside a word / in field position / in parentheses, and a seeded byte fuzzer. For each input: cursor walk of the token texts over the input, end-of-input stickiness, token count bound, error-cause recomputation from the bytes, Parse must fail on a lexical error, and a twin lexer driven by a seeded Next/Peek script. Non-trivial = distinct input with >= 2 tokens or a lexical error."
+	cov["rule"] = "every byte string of length <= 3 (quick) / <= 4 (thorough) over a 40-byte alphabet (exhaustive), hostile dictionary strings in lexer-relevant positions, every code point of the BMP and a stride sample of the astral planes (thorough: every code point) alone / after a word / inside a word / in field position / in parentheses, every pair of opening and closing punctuation or quotation marks around a phrase, and a seeded byte fuzzer. For each input: cursor walk of the token texts over the input, end-of-input stickiness, token count bound, every token's first character and every word token's characters checked against the harness' own character classes, quoted / regexp tokens exactly one delimited run, error-cause recomputation from the bytes, Parse must fail on a lexical error, and a twin lexer driven by a seeded Next/Peek script. Non-trivial = distinct input with >= 2 tokens or a lexical error."
 	floor(res.Counters["code_points"] >= 60000 && res.Counters["code_points_token_start"] >= 1000, &reasons, "code points %d (token starters %d)", res.Counters["code_points"], res.Counters["code_points_token_start"])
 	for _, k := range []string{"error_bad-character", "error_unterminated-quote", "error_unterminated-regexp", "streams_eof", "peeks"} {
 		floor(res.Counters[k] > 0, &reasons, "%s never observed", k)
